@@ -83,6 +83,31 @@ CLAIMED["C06"] = (
     "row field by field with the solo reference and each run's statistics with the sum of the solo statistics.",
     "5/C06", "")
 
+CLAIMED["C05"] = (
+    "TLA+ model of the batching protocol (Batching.tla) checked exhaustively by TLC; every TLC-enumerated input "
+    "layout replayed into real rebalance() calls (list / dict / CSV / JSON) and the CLI; calls validated by TLC "
+    "(Batching_Trace.tla)",
+    "TLC checks one-row-per-input / order / pass-through alignment / reaction count on the model of the DataLoader "
+    "protocol (incl. the trailing empty batch), per-batch pipeline and concatenation for every sequence of "
+    "valid / unparsable / separator-less rows and every batch size in the bound; the two as-built variants (row "
+    "filtered, batch lost) must fail. Each layout of the bounded model is realised with concrete strings and "
+    "executed by the real code through the four source kinds, plus duplicate rows, missing values and "
+    "`synrbl run --out-columns` on generated CSVs; TLC checks row count, that row j describes input j (RDKit "
+    "identity for valid rows, echoed text for malformed ones), pass-through values and reaction_cnt.",
+    "5/C05", "")
+CLAIMED["C12"] = (
+    "TLA+ history machine (Cache.tla) with crash actions checked exhaustively by TLC; directory states and histories "
+    "enumerated by TLC replayed into real cached runs; runs validated against cache-disabled runs by TLC "
+    "(Cache_Trace.tla)",
+    "TLC explores every history of up to 3 runs over a shared directory (2 batches x 2 configurations, 1-2 batches "
+    "per run) with a crash enabled between any two steps of a write and checks that every completed run returns the "
+    "no-cache result; the key-without-configuration and in-place/intolerant variants must fail. Reachable directory "
+    "states (entries absent / complete / truncated temp file) are materialised from the bytes and file operations "
+    "observed in a real write (audit hook) and each is followed by real runs; crash-free multi-run histories "
+    "(incl. changed threshold, changed column name, permuted batches) and a byte-prefix sweep of the written file "
+    "are executed; TLC compares rows and statistics of every run with the cache-disabled reference.",
+    "5/C12", "")
+
 PENDING_REASON = "check not built yet in this round (planned, see DESIGN.md section 5); not claimed until it passes on the unchanged tree"
 
 
